@@ -56,9 +56,9 @@ theorem kindCode_punct {c : Nat} (h : c < 256) : kindCode (.punct (UInt8.ofNat c
   have : c % 2 ^ 8 = c := Nat.mod_eq_of_lt h
   rw [this]; rfl
 
-theorem rest_eq (k : Int) (j : Input) (hw : WF j) (fuel : Nat) (hf : j.remaining.length + 3 ≤ fuel) :
+theorem rest_eq (k : Int) (ts : Bytes) (j : Input) (hw : WF j) (fuel : Nat) (hf : j.remaining.length + 3 ≤ fuel) :
     (do
-      let (io21, in_) := (Generated.Lex.input_startToken (embK k j))
+      let (io21, in_) := (Generated.Lex.input_startToken (embKT k ts j))
       if (Generated.Lex.input_eof in_) then (do
         let t22 ← (Generated.Lex.input_endToken in_ (-1 : Int))
         let (io23, in_) := t22
@@ -85,11 +85,13 @@ theorem rest_eq (k : Int) (j : Input) (hw : WF j) (fuel : Nat) (hf : j.remaining
             pure ((), in_))))) : M (Unit × Generated.Lex.input)) = simU (restM j) ∧
       ∀ j', restM j = .ok j' → WF j' := by
   unfold restM
-  simp only [startToken_eq]
+  simp only [startToken_eqT]
   have hws : WF (startToken j) := startToken_wf hw
   have hrem : (startToken j).remaining.length + 3 ≤ fuel := hf
   generalize startToken j = s at hws hrem
-  simp only [eof_eq, isIdent_peekRune, peekRune_eq,
+  have hidG : Generated.Lex.isIdent isPrintI isSpaceI (s.peekRune : Int) = isIdent s.peekRune :=
+    isIdent_eq _ (by have := peekRune_le s; omega)
+  simp only [eof_eq, peekRune_eq, hidG,
     show (10 : Int) = ((10 : Nat) : Int) from rfl, show (40 : Int) = ((40 : Nat) : Int) from rfl,
     show (41 : Int) = ((41 : Nat) : Int) from rfl, show (91 : Int) = ((91 : Nat) : Int) from rfl,
     show (93 : Int) = ((93 : Nat) : Int) from rfl, show (123 : Int) = ((123 : Nat) : Int) from rfl,
@@ -139,5 +141,103 @@ theorem rest_eq (k : Int) (j : Input) (hw : WF j) (fuel : Nat) (hf : j.remaining
             rw [show kindCode .ident = (-3 : Int) from rfl] at this
             simp only [simI_ok, bind_ok, ebind_ok, this, pure_eq_ok, simU, true_and]
             intro j' hj; cases hj; exact (hP4 i2 hrs).1
+
+/-! ### readToken, lex -/
+
+theorem readToken_eq (k : Int) (ts : Bytes) (i : Input) (hw : WF i) (fuel : Nat) (hf : i.remaining.length + 4 ≤ fuel) :
+    Generated.Lex.input_readToken isPrintI isSpaceI fuel (embKT k ts i) = simU (readToken i) ∧
+      ∀ j, readToken i = .ok j → WF j := by
+  unfold Generated.Lex.input_readToken
+  obtain ⟨hG1, hP1, hP2⟩ := loop1_eq k ts (i.remaining.length + 1) fuel i hw (by omega) hf
+  rw [hG1, readToken_headM]
+  cases hh : headM (i.remaining.length + 1) i with
+  | error e => simp [simC, simU]
+  | ok c =>
+    cases c with
+    | ret j =>
+      simp only [simC, bind_ok, pure_eq_ok, simU, true_and]
+      intro j' hj; cases hj; exact hP1 j hh
+    | next j =>
+      obtain ⟨hwj, hlej⟩ := hP2 j hh
+      simp only [simC, bind_ok]
+      exact rest_eq k ts j hwj fuel (by omega)
+
+/-- image of a model result of lex on the generated side -/
+def simL : Except SynErr (Token × Input) → M (Generated.Lex.token × Generated.Lex.input)
+  | .ok (t, j) => .ok (embTok t, emb j)
+  | .error _ => .error .panic
+
+theorem lex_eq (i : Input) (hw : WF i) (fuel : Nat) (hf : i.remaining.length + 4 ≤ fuel) :
+    Generated.Lex.input_lex isPrintI isSpaceI fuel (emb i) = simL (lex i) ∧
+      ∀ t j, lex i = .ok (t, j) → WF j ∧ j.remaining.length ≤ i.remaining.length := by
+  unfold Generated.Lex.input_lex lex
+  obtain ⟨hG, hP⟩ := readToken_eq (kindCode i.token.kind) _ i hw fuel hf
+  show (do
+    let t1 ← Generated.Lex.input_readToken isPrintI isSpaceI fuel
+      (embKT (kindCode i.token.kind) (i.tokRev.reverse ++ i.remaining) i)
+    _) = _ ∧ _
+  rw [hG]
+  cases hr : readToken i with
+  | error e =>
+    simp only [simU, bind_error, ebind_error, simL, true_and]
+    intro t j h; cases h
+  | ok j =>
+    simp only [simU, bind_ok, ebind_ok, pure_eq_ok, simL]
+    refine ⟨rfl, ?_⟩
+    intro t j' h; cases h
+    refine ⟨hP j hr, ?_⟩
+    rcases Proofs.ModfileLex.readToken_spec i with ⟨i', h1, h2, _⟩ | ⟨e, h1, _⟩
+    · rw [hr] at h1; cases h1; exact h2
+    · rw [hr] at h1; cases h1
+
+/-! ### lexAll (Drv/LexOps.lean): `lex` until the EOF token -/
+
+theorem kind_beq_eof (t : Token) : ((embTok t).kind == (-1 : Int)) = (t.kind == TokKind.eof) := by
+  rw [Bool.eq_iff_iff]
+  simp only [beq_iff_eq]
+  exact kindCode_eq_eof t.kind
+
+theorem lexAll_eq (fuel : Nat) : ∀ (n : Nat) (i : Input) (acc : List Token), WF i → i.remaining.length + 4 ≤ fuel →
+    Drv.LexOps.G.lexAll fuel n (emb i) (acc.map embTok) =
+      (Drv.LexOps.M.lexAll n i acc).map (fun p => (p.1.map embTok, emb p.2)) := by
+  intro n
+  induction n with
+  | zero => intro i acc _ _; rfl
+  | succ n ih =>
+    intro i acc hw hf
+    unfold Drv.LexOps.G.lexAll Drv.LexOps.M.lexAll
+    obtain ⟨hG, hP⟩ := lex_eq i hw fuel hf
+    rw [hG]
+    cases hl : lex i with
+    | error e => rfl
+    | ok p =>
+      obtain ⟨t, j⟩ := p
+      simp only [simL, kind_beq_eof]
+      cases hk : (t.kind == TokKind.eof)
+      · simp only [Bool.false_eq_true, if_false]
+        obtain ⟨hwj, hle⟩ := hP t j hl
+        have := ih j (t :: acc) hwj (by omega)
+        simpa using this
+      · simp
+
+theorem lexAll_wf : ∀ (n : Nat) (i : Input) (acc : List Token), WF i → ∀ {ts : List Token} {i' : Input},
+    Drv.LexOps.M.lexAll n i acc = some (ts, i') → WF i' := by
+  intro n
+  induction n with
+  | zero => intro i acc _ ts i' h; cases h
+  | succ n ih =>
+    intro i acc hw ts i' h
+    unfold Drv.LexOps.M.lexAll at h
+    obtain ⟨_, hP⟩ := lex_eq i hw (i.remaining.length + 4) (Nat.le_refl _)
+    cases hl : lex i with
+    | error e => rw [hl] at h; cases h
+    | ok p =>
+      obtain ⟨t, j⟩ := p
+      rw [hl] at h
+      simp only at h
+      obtain ⟨hwj, _⟩ := hP t j hl
+      split at h
+      · cases h; exact hwj
+      · exact ih j (t :: acc) hwj h
 
 end ModVerif.TieFnLex
